@@ -166,6 +166,22 @@ func behaviours() []behaviour {
 			w(c, resp("200 OK", []string{"Content-Length: 100", "X-Tok: abcdef"}, "only ten b"))
 			return false
 		}},
+		{Name: "content-length-2^62-then-close", Status: 200, Exp: expEither, act: func(c net.Conn, v string) bool {
+			w(c, resp("200 OK", []string{"Content-Length: 4611686018427387904", "X-Tok: abcdef"}, "only ten b"))
+			return false
+		}},
+		{Name: "content-length-maxint64-then-close", Status: 200, Exp: expEither, act: func(c net.Conn, v string) bool {
+			w(c, resp("200 OK", []string{"Content-Length: 9223372036854775807", "X-Tok: abcdef"}, goodBody(v)))
+			return false
+		}},
+		{Name: "content-length-1TiB-then-close", Status: 200, Exp: expEither, act: func(c net.Conn, v string) bool {
+			w(c, resp("200 OK", []string{"Content-Length: 1099511627776", "X-Tok: abcdef"}, goodBody(v)))
+			return false
+		}},
+		{Name: "content-length-overflows-int64", Exp: expFail, act: func(c net.Conn, v string) bool {
+			w(c, resp("200 OK", []string{"Content-Length: 99999999999999999999999"}, "hello"))
+			return false
+		}},
 		{Name: "content-length-negative", Exp: expFail, act: func(c net.Conn, v string) bool {
 			w(c, resp("200 OK", []string{"Content-Length: -5"}, "hello"))
 			return false
